@@ -66,10 +66,13 @@ def r2(ctx, prog):
             flds = set()
             for c, br in gs:
                 flds |= {x.split('::')[-1] for x in q.subtree_fields(f, c)}
-            ok = wq in flds and not (flds & set(res))
+            # every branch that decides whether the wake-up happens (early returns included), not only the enclosing ifs
+            for c, k, b in f.cfg.controlling_branches(q.pt(f, r)):
+                flds |= {x.split('::')[-1] for x in q.subtree_fields(f, c)}
+            ok = wq in flds and not (flds - {wq})
             ctx.ob('C18.R2', '%s|wake-ungated' % f.name, ok,
                    'resume() is conditional only on the waiter queue (%s)' % sorted(flds) if ok else
-                   'resume() is also conditional on the resource state (%s): two posts in a row wake one waiter and leave the second asleep although the resource is available' % sorted(flds),
+                   'resume() is also conditional on state other than the waiter queue (%s): a post can then wake nobody although a waiter is queued and the resource is available' % sorted(flds - {wq}),
                    where=f.loc(r['i']))
             # the resumed token is the one popped from the front
             fr = [st for st in f.calls() if st.get('fn') == 'front' and 'obj' in st and (f.field_of(st['obj']) or '').endswith('::' + wq)]
@@ -112,6 +115,46 @@ def r3(ctx, prog):
             g = [(c, k) for c, k, b in f.cfg.controlling_branches(q.pt(f, s)) if any(x.endswith('is_canceled') for x in q.subtree_fields(f, c))]
             ok = ok and any(k == 1 for c, k in g)
         ctx.ob('C18.R3', '%s|returns-when-cancelled' % f.name, ok, 'the context switch is only reached when the routine is not cancelled', where=f.loc(f.body))
+
+
+def r8(ctx, prog):
+    ctx.rule('C18.R8', 'A4 every ready routine gets a scheduling pass: makeRoutineReady posts schedule() to the loop on every path that queued a routine; if the post is '
+             'skipped because one is believed pending (a flag / stored run id), that belief is withdrawn wherever the pending post is cancelled and when schedule() starts', floor=1)
+    f = prog.fn1(SCH + '::makeRoutineReady')
+    push = [st for st in f.calls() if st.get('fn') in ('push', 'push_back', 'emplace') and 'ready_routines' in f.path(st.get('obj'))]
+    post = [st for st in f.calls() if st.get('fn') in ('runNext', 'run', 'runInLoop') and st.get('cls') == 'tbox::event::Loop']
+    if not push or not post:
+        raise AnalysisBroken('makeRoutineReady: queueing / posting of schedule() not found')
+    pp = q.pt(f, post[0])
+    gflds = set()
+    for c, k, b in f.cfg.controlling_branches(pp):
+        if f.cfg.dominates(q.pt(f, push[0]), f.cfg.point_of(c)) or True:
+            gflds |= {x for x in q.subtree_fields(f, c) if 'Data::' in x and not x.endswith('::state')}
+    # guards that were there before the push (state tests deciding whether the routine is queued at all) are fine: only look at guards between push and post
+    between = set()
+    for c, k, b in f.cfg.controlling_branches(pp):
+        cp = f.cfg.point_of(c)
+        if cp is not None and f.cfg.exists_path(q.pt(f, push[0]), cp):
+            between |= {x for x in q.subtree_fields(f, c) if 'Data::' in x}
+    if not between:
+        ctx.ob('C18.R8', '%s|post-unconditional' % f.name, q.must_follow(f, q.pt(f, push[0]), [pp]), 'every queued routine is followed by a posted schedule()', where=f.loc(post[0]['i']))
+        return
+    for fld in sorted(between):
+        short = fld.split('::')[-1]
+        sc = prog.fn1(SCH + '::schedule')
+        reset_in_schedule = [a for a, rhs in q.assigns(sc, short)]
+        bad = []
+        for g in prog.methods_of(SCH):
+            for c in g.calls():
+                if c.get('fn') == 'cancel' and c.get('cls') == 'tbox::event::Loop' and any((g.field_of(a) or '').endswith(short) for a in c.get('args', ())):
+                    resets = [a for a, rhs in q.assigns(g, short)]
+                    if not any(g.cfg.exists_path(q.pt(g, c), q.pt(g, a)) for a in resets):
+                        bad.append(g.loc(c['i']))
+        ok = bool(reset_in_schedule) and not bad
+        ctx.ob('C18.R8', '%s|pending-belief(%s)' % (f.name, short), ok,
+               'the post is skipped while %s says one is pending; schedule() clears it and every cancel of the pending post clears it too' % short if ok else
+               'makeRoutineReady skips the post while %s is set, but %s: afterwards routines are queued and nothing ever runs them (join/acquire/receive never return)' %
+               (short, ('the pending post is cancelled at %s without clearing it' % ', '.join(bad)) if bad else 'schedule() never clears it'), where=f.loc(post[0]['i']))
 
 
 def r6(ctx, prog):
@@ -249,4 +292,5 @@ def run(ctx):
     ctx.guard(r5, ctx, prog)
     ctx.guard(r6, ctx, prog)
     ctx.guard(r7, ctx, prog)
+    ctx.guard(r8, ctx, prog)
     return prog
